@@ -162,5 +162,8 @@ MonStep(m, e) ==
     [] e.e = "Touch" -> Released(m, e)
     [] e.e \in {"Fs", "Ph"} -> AtTop(m)
     [] e.e = "End" -> Ended(m, e)
+    (* another thread's own instance (its own loop, directory, three IN_CREATE events): it got
+       exactly its events -- instances of different threads share nothing *)
+    [] e.e = "Peer" -> Chk(m, TRUE, e.n = 3 /\ e.bad = 0, "C20:peer", "C20:peer")
     [] OTHER -> m
 =============================================================================
